@@ -418,7 +418,7 @@ def run(ctx):
             else:
                 st_.violations[f.key] = (f.desc, f.replay)
     ctx.merge(st_)
-    total = 24000 if ctx.thorough else 640
+    total = 10000 if ctx.thorough else 640
     infra = core.hypothesis_search(ctx, "pyv.c02", total)
     rc = ctx.finish(RULE, False, [
         "the reference interpreter implements value semantics: aggregates are copied on assignment, argument passing and return",
